@@ -10,6 +10,37 @@ __all__ = ["convert_code_string"]
 
 import ast
 import symtable
+import sys
+
+
+def _unparse_fstrings(node: ast.expr) -> ast.expr:
+    """
+    Since python 3.12, ast.unparse reuses the quote of an f-string in its replacement fields
+    (e.g. f'{d['key']}'), which is a syntax error before python 3.12.
+    The f-strings are unparsed by expr_unparse (which never reuses the quote),
+    the result is put in the tree as a name, which is written as it is by ast.unparse.
+    """
+
+    def replace(sub_node):
+        return ast.Name(id=expr_unparse(sub_node), ctx=ast.Load())
+
+    if isinstance(node, ast.JoinedStr):
+        return replace(node)
+    stack: list[ast.AST] = [node]
+    while stack:
+        sub_node = stack.pop()
+        for field_name, field in ast.iter_fields(sub_node):
+            if isinstance(field, ast.JoinedStr):
+                setattr(sub_node, field_name, replace(field))
+            elif isinstance(field, ast.AST):
+                stack.append(field)
+            elif isinstance(field, list):
+                for index, item in enumerate(field):
+                    if isinstance(item, ast.JoinedStr):
+                        field[index] = replace(item)
+                    elif isinstance(item, ast.AST):
+                        stack.append(item)
+    return node
 
 
 def convert_code_string(code: str, filename="<string>", configs: Configs | None = None):
@@ -23,6 +54,8 @@ def convert_code_string(code: str, filename="<string>", configs: Configs | None 
     if configs.unparser == "oneliner":
         return expr_unparse(out)
     else:
+        if sys.version_info >= (3, 12):
+            out = _unparse_fstrings(out)
         try:
             return ast.unparse(out).replace("\n", "")
         except RecursionError:
